@@ -388,6 +388,21 @@ def _collect(s, check, results, stats):
     s.nontrivial = set(range(distinct))
 
 
+def contract_probe(n_family=700, n_random=250):
+    """concrete histories for the deductive contract of render_to_terminal: when an obligation is refuted (the ghost-terminal proof has no
+    model to replay) these histories on the reference terminal supply the failing input, if there is one"""
+    fam = FAMILY_CACHE()
+    step = max(1, len(fam) // n_family)
+    out = []
+    for c in fam[::step] + [rand_case(s) for s in range(n_random)]:
+        r = _judge(c, False)
+        if r["clause"]:
+            out.append((r["clause"], dict(history=c), r["detail"], {"kind": "suite", "module": MOD, "case": c}))
+            if len(out) >= 3:
+                break
+    return out
+
+
 def deductive(check, tier):
     """(1) the inductive screen proof of CursorAwareWindow.render_to_terminal over the tape model (contracts/cursorwindow.py): from ANY
     state satisfying the cache/screen invariant the real body leaves the lines above the window untouched, shows every array row from
@@ -398,6 +413,8 @@ def deductive(check, tier):
     import contracts.window as W
     import contracts.cursorwindow as CW
     from pyvc.verify import verify
+    CW.caw_screen.probe = contract_probe
+    W.caw_render.probe = contract_probe
     verify(CW.caw_screen, tier, check)
     verify(W.caw_render, tier, check)
     check.assume("deductive layer: ghost terminal = a tape of rows at row granularity (shows(line) / blank / junk / partial), the screen a "
